@@ -407,7 +407,7 @@ class ContractDB:
                 cur.unroll = int(rest.split()[0])
                 cur.flags.add('bounded')
                 last = None
-            elif word in ('inline', 'trusted', 'pure', 'nosafety', 'safety', 'functional'):
+            elif word in ('inline', 'trusted', 'pure', 'nosafety', 'safety', 'functional', 'deterministic'):
                 cur.flags.add(word)
                 if rest:
                     cur.flags.update(rest.split())
